@@ -59,6 +59,10 @@ def dual_inv(a):
         return A.wrap(np.stack([A.plain(dual_inv(x)) for x in p]))
     n = p.shape[0]
     D = lambda e: e if isinstance(e, Dual) else Dual(S.as_sc(e))
+    if n == 1:
+        out = np.empty((1, 1), dtype=object)
+        out[0, 0] = D(p[0, 0]).recip()
+        return A.wrap(out)
     if n == 2:
         det = D(p[0, 0]) * D(p[1, 1]) - D(p[0, 1]) * D(p[1, 0])
         adj = [[D(p[1, 1]), -D(p[0, 1])], [-D(p[1, 0]), D(p[0, 0])]]
@@ -104,6 +108,12 @@ def configs(quick):
         out.append(('to_stiefel_euler', {'dim': d, 'rank': r, 'with_phase': False}, N0, N0, True))
         out.append(('to_stiefel_euler', {'dim': d, 'rank': r, 'with_phase': False}, 2 * N0, 2 * N0, True))
         out.append(('to_stiefel_euler', {'dim': d, 'rank': r, 'with_phase': True}, 2 * N0 + r, 2 * N0 + r, True))
+    for d, r in ((2, 1), (2, 2), (3, 2)) if quick else ((2, 1), (2, 2), (3, 2), (3, 3), (4, 2)):
+        N0 = (r * (r + 1)) // 2
+        if d * r - N0 > 0:
+            out.append(('to_stiefel_choleskyL', {'dim': d, 'rank': r}, d * r - N0, d * r - N0, False))
+        if (d, r) != (3, 3):
+            out.append(('to_stiefel_choleskyL', {'dim': d, 'rank': r}, 2 * d * r - 2 * N0, 2 * d * r - 2 * N0, False))
     for d in (2, 3):
         for order in (1, 2):
             out.append(('to_special_orthogonal_cayley', {'dim': d, 'order': order}, d * (d - 1) // 2, d * (d - 1) // 2, False))
@@ -159,10 +169,11 @@ def run(chk):
     quick = chk.tier == 'quick'
     chk.fn(*['numqi.manifold.' + k for k in C01.FUNCS])
     chk.register_replayer('c02', replay)
-    chk.out_of_claim('torch branches; exp / QR / polar / Cholesky-L / softmax charts (LAPACK, expm); "generic point" is replaced by "there is a point of the box |theta|<=2 with full rank" (equivalent for analytic maps)')
+    chk.out_of_claim('torch branches; exp / QR / polar / softmax charts (LAPACK, expm); "generic point" is replaced by "there is a point of the box |theta|<=2 with full rank" (equivalent for analytic maps)')
     chk.bound(dims='2..3 quick (4 thorough)', box='|theta_i| <= 2; angles enter through (cos,sin) on the unit circle', jacobian='forward-mode dual numbers through the real function, one run per parameter')
-    chk.stub('scipy.special.expit -> fresh v in (0,1) with derivative v(1-v); np.linalg.inv -> adjugate formula in dual arithmetic (dim<=3)')
-    fac = facade.make_np_facade(linalg={'inv': lambda a: dual_inv(a) if isinstance(a, A.SymArray) else np.linalg.inv(a)})
+    chk.stub('scipy.special.expit -> fresh v in (0,1) with derivative v(1-v); np.linalg.inv -> adjugate formula in dual arithmetic (dim<=3); np.linalg.cholesky -> exact Cholesky-Banachiewicz recursion in dual arithmetic (dim<=3)')
+    fac = facade.make_np_facade(linalg={'inv': lambda a: dual_inv(a) if isinstance(a, A.SymArray) else np.linalg.inv(a),
+                                        'cholesky': lambda a: C01.exact_cholesky(a) if isinstance(a, A.SymArray) else np.linalg.cholesky(a)})
     import scipy as _sp
     import scipy.special as _sps
     eg = {'numqi.manifold._internal': {'scipy': facade.Facade(_sp, {'special': facade.Facade(_sps, {'expit': sym_expit_dual}, 'scipy.special')}, 'scipy')}}
